@@ -234,11 +234,18 @@ pub fn source_for(case: &Case) -> (String, Vec<(String, u16)>) {
         src.push_str(&format!("{}: dw 0\n", LBL));
         labels.push((LBL.to_string(), case.label_off));
     }
+    let uses_name = case.insn.ops.iter().any(|o| matches!(o, Opd::Name(_)));
+    if case.insn.mn == "call" {
+        src.push_str(&format!("def {} {{ ret }}\n", PROC));
+    }
     let mut ch = Choices::new(case.choices.clone());
     let text = render_insn(&case.insn, &mut ch, &labels);
     src.push_str("start: ");
     src.push_str(&text);
     src.push('\n');
+    if uses_name && case.insn.mn != "call" {
+        src.push_str(&format!("{}: hlt\n", TGT));
+    }
     (src, labels)
 }
 
@@ -291,7 +298,8 @@ fn outcome_matches(exp: &Outcome, obs: &StepOut, asm: &Assembled) -> bool {
         (Outcome::JmpIdx(i), StepOut::State(St::Jmp(j))) => i == j,
         (Outcome::JmpLabel(n), StepOut::State(St::Jmp(j))) => asm.code_label(n) == Some(*j),
         (Outcome::JmpProc(n), StepOut::State(St::Jmp(j))) => asm.ictx.fn_map.get(n) == Some(j),
-        (Outcome::Error, StepOut::Err(e)) => !e.contains("Internal Error") && !e.contains("Unrecognized token"),
+        // the defined run-time diagnostic (custom errors ride on lalrpop's UnrecognizedToken with an empty token)
+        (Outcome::Error, StepOut::Err(e)) => !e.contains("Internal Error") && e.contains("Unrecognized token `` found") && e.contains("ret is encountered without corresponding call"),
         _ => false,
     }
 }
@@ -407,7 +415,8 @@ pub fn run_case(wk: &mut Worker, case: &Case, openq: &Quirks, call_stack: &[usiz
         Some(s) => s,
         None => return Verdict::Rejected("no start".into()),
     };
-    if asm.code.len() != start + 1 {
+    let trailing = if case.insn.ops.iter().any(|o| matches!(o, Opd::Name(_))) && case.insn.mn != "call" { 1 } else { 0 };
+    if asm.code.len() != start + 1 + trailing {
         return Verdict::Fail {
             aspect: "emitted-count".into(),
             detail: format!("one source instruction produced {:?}", asm.code),
